@@ -81,6 +81,19 @@ def gen_instance(rng, kind):
         if kind == "bi_complex_R_real_L":
             R, L = L, R          # (R^dagger L = 1 as well)
         return dict(R=R, L=L, herm=0, idem=1)
+    if kind == "bi_nearly_hermitian":
+        # L differs from an orthonormal R by 2^-20 times a vector orthogonal to R: exactly biorthogonal
+        # (L^dagger R = 1), within any sensible "allclose" of R, but NOT R -- the projector is 1 - R L^dagger
+        cx = rng.random() < 0.5
+        Q = (DFT4 if cx else HAD4)
+        perm = list(range(4))
+        rng.shuffle(perm)
+        Q = Q[:, perm]
+        r = rng.choice([1, 2])
+        R = Q[:, :r].copy()
+        C = np.array([[rng.choice([-1, 1, 2]) for _ in range(r)] for _ in range(4 - r)], dtype=float)
+        L = R + 2.0 ** -20 * (Q[:, r:] @ C)
+        return dict(R=R, L=L, herm=0, idem=1)
     if kind == "general":
         d = rng.choice([3, 4])
         r = rng.choice([1, 2])
@@ -173,7 +186,7 @@ def run(pid, tier, seed, replay=None):
         mode_a = dict(spec="MC_Projector", distinct_states=r.distinct, exhaustive=True,
                       invariants=["InvDenotation", "InvLinksConsistent", "InvIdempotent"])
     kinds = ["herm_real", "herm_complex", "bi_real", "bi_complex", "general", "bi_real_R_complex_L",
-             "bi_complex_R_real_L"]
+             "bi_complex_R_real_L", "bi_nearly_hermitian"]
     words = ["".join(w) for w in itertools.product("THC", repeat=4)]
     sessions, metas, crashes = [], {}, []
     sid = 0
